@@ -131,7 +131,7 @@ theorem Property.encode_nonempty (p : Property) (out : Bytes) (h : p.encode = .o
   have h2 : (encodeVarint p.kind.id ++ r1).length = 0 := by rw [hc]; rfl
   rw [List.length_append] at h2
   have h3 : varintLen p.kind.id ≥ 1 := by
-    unfold varintLen
+    unfold varintLen Gen.varintLen
     split <;> (try split) <;> (try split) <;> omega
   omega
 
